@@ -180,6 +180,7 @@ CONTROLS = [
     ("fire", "S5f IsaacRng gains skip_block() driving generate_and_set", rep(IS, "impl RngCore for IsaacRng {", "impl IsaacRng {\n    /// Drop the rest of the current block.\n    pub fn skip_block(&mut self) {\n        self.0.generate_and_set(1);\n    }\n}\n\nimpl RngCore for IsaacRng {"), ["C03"]),
     ("silent", "S5 Xoshiro256PlusPlus gains an inherent from_seed that forwards", rep(X + "xoshiro256plusplus.rs", "impl Xoshiro256PlusPlus {\n", "impl Xoshiro256PlusPlus {\n    /// Same as `SeedableRng::from_seed`.\n    pub fn from_seed(seed: [u8; 32]) -> Self {\n        <Self as SeedableRng>::from_seed(seed)\n    }\n\n"), ["C09"]),
     ("silent", "S5 JitterRng gains rounds() accessor", rep(J, "    pub fn set_rounds(&mut self, rounds: u8) {", "    pub fn rounds(&self) -> u8 {\n        self.rounds\n    }\n\n    /// Configures how many rounds are used to generate each 64-bit value.\n    pub fn set_rounds(&mut self, rounds: u8) {"), ["C16", "C12", "C14", "C17"]),
+    ("silent", "S6 xoshiro256++ gains reseed() via from_seed", rep(X + "xoshiro256plusplus.rs", "impl Xoshiro256PlusPlus {\n", "impl Xoshiro256PlusPlus {\n    /// Start over from a new seed.\n    pub fn reseed(&mut self, seed: [u8; 32]) {\n        *self = Self::from_seed(seed);\n    }\n\n"), ["C08", "C07", "C14"]),
     ("silent", "S2 xoshiro256++ state accessor added", rep(X + "xoshiro256plusplus.rs", "impl Xoshiro256PlusPlus {\n", "impl Xoshiro256PlusPlus {\n    /// Number of state words.\n    pub fn state_words(&self) -> usize {\n        self.s.len()\n    }\n\n"), ["C14", "C19", "C18", "C10"]),
 ]
 
